@@ -167,7 +167,8 @@ SELENE_BIN = os.path.join(CACHE, "repo-target", "debug", "selene")
 
 # ----------------------------------------------------------------------------- cases
 
-RESULT_RE = re.compile(r"\(\s*(\d+)%N\s*,\s*(\d+)%N\s*,\s*(\d+)%N\s*\)")
+RESULT_RE = re.compile(r"\(\s*(\d+)(?:%N)?\s*,\s*(\d+)(?:%N)?\s*,\s*(\d+)(?:%N)?\s*\)")
+COUNT_RE = re.compile(r"=\s*\(\s*(\d+)(?:%N)?\s*,\s*\[")
 
 
 def run_shards(workdir):
@@ -185,6 +186,12 @@ def run_shards(workdir):
                 errors.append("%s: rc=%d %s" % (f, rc, out[-1500:]))
                 continue
             flat = re.sub(r"\s+", " ", out)
+            want = len(re.findall(r"^Definition c\d+ :=", open(os.path.join(workdir, f)).read(), re.M))
+            mc = COUNT_RE.search(flat)
+            if not mc or int(mc.group(1)) != want:
+                errors.append("%s: evaluated-case count %s != %d cases in shard: %s"
+                              % (f, mc.group(1) if mc else None, want, out[-600:]))
+                continue
             for m in RESULT_RE.finditer(flat):
                 results[int(m.group(1))] = (int(m.group(2)), int(m.group(3)))
     for f in os.listdir(workdir):
